@@ -32,8 +32,9 @@ def random_history(rng, k):
         if rng.random() < 0.10:
             t += rng.choice([0, 0, 1, 3600, 86400, 3 * 86400])
             m = rng.choice("aaaw")
-            ops.append(("R", m, t))
-            if m == "w":
+            rm = 1 if (m == "a" and rng.random() < 0.35) else 0     # the active file disappears while no sink is open
+            ops.append(("R", m, t, rm))
+            if m == "w" or rm:
                 cur = 0
             continue
         t += rng.choice([0, 0, 0, 0, 1, 59, 3600, 43200, 86400])
@@ -54,7 +55,7 @@ def run(ck):
     quick = ck.tier == "quick"
     rng = random.Random(ck.seed)
     ck.rule = ("histories = every complete history of the Rotate model to the export depth (TLC, all configurations: 3 naming "
-               "schemes x backup counts {0,1,2,unlimited} x overwrite x clean-up x open modes, <= 2 restarts, sizes "
+               "schemes x backup counts {0,1,2,unlimited} x overwrite x clean-up x open modes, <= 2 restarts (each append restart also with the active file removed while no sink is open), sizes "
                "{limit/4, 3/4 limit, 5/4 limit}, colliding and non-colliding dates; sampled in the quick tier) + seeded random "
                "long histories (byte-exact fills, limit+-1, oversize statements, restarts, unrelated files, GMT and DST zones); "
                "non-trivial = the real sink rotated at least once; distinct by configuration + operation sequence")
@@ -68,6 +69,8 @@ def run(ck):
         "the backup-count bound is demanded within a run and across append-mode restarts",
         "naming order: current file newest; Index: larger index older; Date/DateAndTime: earlier suffix older, same suffix: larger index older",
         "a rotated file re-opened by an append restart may be named after the original or the re-open instant",
+        "a restart may find the active file gone (crash between rename and re-open, external tool): its statements count as deliberately deleted, "
+        "every other retained file must keep statements, order, naming and count bound",
         "unrelated = different extension or name not starting with 'logfile.' (the repository's own notion)",
         "fsync is a no-op in the harness (durability is not part of the property)",
     ]
@@ -76,21 +79,26 @@ def run(ck):
     # ---- 1. design level: the contract holds on the transcription for every history up to the bound
     d_i, d_d, d_t = (7, 6, 5) if quick else (9, 7, 7)
     sizes = "{1, 3, 5}" if quick else "{1, 2, 3, 5}"
-    REACH = ("NoRotation", "NoDeletion", "NoStop", "NoRecovery")
+    RM = "{0, 1}"     # restarts with and without "the active file disappeared while no sink was open"
+    REACH = ("NoRotation", "NoDeletion", "NoStop", "NoRecovery", "NoRecoveryWithoutActive")
     d_e = 5
-    jobs = [("MC_C14_index", rot.mc_cfg("MC_C14_index", export=True, Schemes="{0}", MaxOps=d_i, Sizes=sizes, ExportDepth=d_e), dict(timeout=1700), 3 if quick else 4),
-            ("MC_C14_date", rot.mc_cfg("MC_C14_date", export=True, Schemes="{1}", MaxOps=d_d, Tolerated=TOL, ExportDepth=d_e), dict(timeout=1700), 5 if quick else 6),
-            ("MC_C14_datetime", rot.mc_cfg("MC_C14_datetime", export=True, Schemes="{2}", MaxOps=d_t, Tolerated=TOL, ExportDepth=d_e), dict(timeout=1700), 6),
-            ("MC_C14_coverage", rot.mc_cfg("MC_C14_coverage", Schemes="{0, 1}", MaxOps=4), dict(coverage=True, timeout=600), 1),
+    jobs = [("MC_C14_index", rot.mc_cfg("MC_C14_index", export=True, Schemes="{0}", MaxOps=d_i, Sizes=sizes, ExportDepth=d_e, RMs=RM), dict(timeout=1700), 3 if quick else 4),
+            ("MC_C14_date", rot.mc_cfg("MC_C14_date", export=True, Schemes="{1}", MaxOps=d_d, Tolerated=TOL, ExportDepth=d_e, RMs=RM), dict(timeout=1700), 5 if quick else 6),
+            ("MC_C14_datetime", rot.mc_cfg("MC_C14_datetime", export=True, Schemes="{2}", MaxOps=d_t, Tolerated=TOL, ExportDepth=d_e, RMs=RM), dict(timeout=1700), 6),
+            ("MC_C14_coverage", rot.mc_cfg("MC_C14_coverage", Schemes="{0, 1}", MaxOps=4, RMs=RM), dict(coverage=True, timeout=600), 1),
             ]
     # the deviations tolerated above, as TLC counterexamples (one per scheme and clause): replayed on the real sink below
     WIT = [(f"MC_C14_witness_{'DT'[sc - 1]}_{n}", sc, tol) for sc in (1, 2) for n, tol in ((0, "{}"), (1, '{"count_after_restart"}'))]
     jobs += [(lbl, rot.mc_cfg(lbl, Schemes="{%d}" % sc, MaxOps=6, Tolerated=tol), dict(timeout=600), 1) for lbl, sc, tol in WIT]
-    jobs += rot.reach_jobs(ck, dict(Schemes="{0, 1}", MaxOps=6), REACH)
+    # deeper, focused: an append restart that finds the active file gone, then enough writes to rotate again
+    jobs += [("MC_C14_active_file_removed", rot.mc_cfg("MC_C14_active_file_removed", export=True, Schemes="{0, 1, 2}", Modes="{0}", RMs="{1}",
+                                                       MaxRestarts=1, MaxOps=6, ExportDepth=6, Sizes="{1, 5}", MaxBs="{1, 2, 99}", Cleans="{0}",
+                                                       Tolerated=TOL), dict(timeout=1700), 2)]
+    jobs += rot.reach_jobs(ck, dict(Schemes="{0, 1}", MaxOps=6, RMs=RM), REACH)
     res = dict(rot.tlc_parallel(jobs))
     rot.coverage_selftest(res["MC_C14_coverage"])
     ck.add_tlc(res["MC_C14_coverage"], "MC_C14_coverage")
-    for lbl in ("MC_C14_index", "MC_C14_date", "MC_C14_datetime"):
+    for lbl in ("MC_C14_index", "MC_C14_date", "MC_C14_datetime", "MC_C14_active_file_removed"):
         rot.must_hold(ck, lbl, res[lbl], count=False)
     witnesses = []
     for lbl, sc, tol in WIT:
@@ -105,6 +113,10 @@ def run(ck):
                                 "tolerated_in_model": "count/deleted after an append restart for Date and DateAndTime (known deviation, judged on the real code)"}
     # ---- 2. behaviours: all complete histories to the export depth
     behs = [rot.take_behaviours(ck, res, lbl) for lbl in ("MC_C14_index", "MC_C14_date", "MC_C14_datetime")]
+    # of the focused export keep the histories where the restart is followed by at least two writes
+    far = [b for b in rot.take_behaviours(ck, res, "MC_C14_active_file_removed")
+           if any(o["op"] == "R" and sum(1 for q in b["ops"][i + 1:] if q["op"] == "W") >= 2 for i, o in enumerate(b["ops"]))]
+    behs.append(far)
     ck.extra["histories_exported_by_tlc"] = sum(len(b) for b in behs)
     cap = 6000 if quick else None
     chosen = []
